@@ -903,6 +903,42 @@ func (e *Exec) regionTerm(r KnownRegion) *T {
 			}
 			continue
 		}
+		if strings.HasPrefix(name, "*") {
+			// any input whose name ends with the suffix
+			suf := name[1:]
+			var alts []*T
+			fixedHit := false
+			for fn, fx := range e.fixed {
+				if strings.HasSuffix(fn, suf) && ((op == "==" && fx == val) || (op == "!=" && fx != val)) {
+					fixedHit = true
+				}
+			}
+			if fixedHit {
+				continue
+			}
+			for _, in := range e.inputs {
+				if !strings.HasSuffix(in.Name, suf) && !strings.Contains(in.Name, suf+"!") {
+					continue
+				}
+				var k *T
+				if in.S.K == sym.KBool {
+					k = sym.BoolC(val != 0)
+				} else {
+					k = sym.BVC(in.S.W, val)
+				}
+				switch op {
+				case "==":
+					alts = append(alts, sym.Eq(in, k))
+				case "!=":
+					alts = append(alts, sym.Neq(in, k))
+				}
+			}
+			if len(alts) == 0 {
+				return nil
+			}
+			cs = append(cs, sym.Or(alts...))
+			continue
+		}
 		var v *T
 		for _, in := range e.inputs {
 			if in.Name == name {
